@@ -134,7 +134,7 @@ def real_run(model, init, limit, files, base, api, options=None):
     except core.CaseTimeout:
         return None
     except rt_err as exc:
-        r = ('err', str(exc))
+        r = ('err', refval.norm_error(str(exc)))
     except Exception as exc:  # pylint: disable=broad-except
         r = ('host-exception', f'{type(exc).__name__}: {exc}')
     return {'r': r, 'logs': logs, 'globals': user(g, lib), 'count': options.get('statementCount'), 'sink': options.sink[start:],
@@ -156,7 +156,7 @@ def ref_run(model, init, limit, files, base, api, bool_num=False, fuel=600):
     except (Domain, Unspecified):
         return None  # left open by the reference (arithmetic domain error / single-statement resource exhaustion)
     except RefRuntimeError as exc:
-        r = ('err', str(exc))
+        r = ('err', refval.norm_error(str(exc)))
     return {'r': r, 'logs': vm.logs, 'globals': user(g, lib), 'count': vm.clock, 'fetches': [norm_url(u) for u in vm.fetches]}
 
 
@@ -214,7 +214,7 @@ def check_program(text, files, base, init, acc, api, case):
         acc.cover('limit_classes', 'L=0' if L == 0 else ('L<N' if N is None or L < N else ('L=N' if L == N else 'L>N')))
         nontrivial = (N is None or N >= 3)
         acc.case((text, sorted(files.items()), L), nontrivial)
-        if real['r'][0] == 'err' and real['r'][1].startswith('Exceeded maximum script statements'):
+        if real['r'] == ('err', 'EXCEEDED'):
             aborts += 1
             acc.count('aborts_observed')
         # the counter value left in the options dict after an abort is not part of the property (compared only for completed runs)
